@@ -253,6 +253,10 @@ def history_check(mod, stage, res):
                 continue
             res.setdefault("history_checked", {}).setdefault(pname, {})[bname] = len(sample)
             bad = [k for k, i in enumerate(idx) if r2[k] != ires[i]]
+            if pname == "ambient":
+                # a single case may declare the settings it legitimately follows: {"ambient_depends": ["week"]}
+                act = set(ambient.split(","))
+                bad = [k for k in bad if not (set(sample[k].get("ambient_depends", ())) & act)]
             if not bad:
                 continue
             k = bad[0]
